@@ -90,7 +90,12 @@ def compOracle (fn : String) (out : List String) : String :=
       let tie : Option Float := match qual with
         | ["tie", "v", x] => FloatIO.ofHex? x
         | _ => none
-      if fn == "composite_aabb" then
+      -- `exact`: every input coordinate is a small dyadic rational and no rounding occurs in any bounding-box computation
+      -- (the harness checks the arguments): a touching configuration is then exactly touching for the code as well, the
+      -- closed-box pruning tests must keep the touching part, and the composite answer must be the reduction of the
+      -- per-part answers WITHOUT the boundary allowances (`lim`, `tie`) that absorb rounding in general position
+      let exact := rest.any (· == ["exact"])
+      if fn == "composite_aabb" || fn == "composite2_aabb" then
         match a, b with
         | ["sup", _], ["sup", n] => if n == "0" then "pass" else s!"fail overlapping-elements-not-reported {n}"
         | ["ids", x], ["ids", y] =>
@@ -115,14 +120,18 @@ def compOracle (fn : String) (out : List String) : String :=
         let isTie := match tie with
           | some t => closeF t 0.0
           | none => false
-        let isRayOrCast := fn == "composite_ray" || fn == "composite2_ray" || fn == "composite_cast" || fn == "composite2_cast"
+        let isNl := fn == "composite_nlcast" || fn == "composite2_nlcast"
+        let isRayOrCast := fn == "composite_ray" || fn == "composite2_ray" || fn == "composite_cast" || fn == "composite2_cast" || isNl
+        -- rays and casts divide by direction components / iterate: their boundary allowances stay
+        let strict := exact && !isRayOrCast
+        let lim := if strict then none else lim
         -- times of impact of the GJK-based per-part casts are accurate to ~1e-5 relative on extreme aspect ratios
-        let tol : Rat := if fn == "composite_cast" || fn == "composite2_cast" then 1 / 10000 else tolC
+        let tol : Rat := if fn == "composite_cast" || fn == "composite2_cast" || isNl then 1 / 10000 else tolC
         let probs := (A.zip B).filterMap (fun (x, y) => cmpItem lim x y tol)
         match probs.filter (fun w => !(isRayOrCast && w.startsWith "tie")) with
         | [] => if probs.isEmpty then "pass" else "skip tie start-on-surface"
         | why :: _ =>
-          if isTie && (fn == "composite_it" || fn == "composite_point" || fn == "composite2_it" || fn == "composite2_point")
+          if isTie && !strict && (fn == "composite_it" || fn == "composite_point" || fn == "composite2_it" || fn == "composite2_point")
               && why.startsWith "verdict-differs" then "skip tie"
           else s!"fail {why}"
     | _ => "fail unparsable-output"
